@@ -86,7 +86,9 @@ check("C02", "model_checking",
       "polynomials over labels of mixed types, dict / PUBO / PCBO arguments, bounds omitted / partial / exact / loose; in some a copy "
       "/ sum / product / clone of the model is given further constraints before the model's own record is observed); "
       "spec/CheckConstraints.tla (TLC) evaluates the contract on the implementation's penalty for every assignment of variables and "
-      "ancillas, is_solution_valid against the constraints passed, ancilla freshness across the scenario, num_ancillas, argument immutability.",
+      "ancillas, is_solution_valid against the constraints passed, ancilla freshness across the scenario, num_ancillas, argument immutability "
+      "(the caller's polynomial is scribbled into afterwards; between steps the model may be replaced by a copy / sum / product / clone / "
+      "refresh of itself); spec/CheckSlack.tla judges the slack register size for ranges up to 2^63.",
       "bounded: <= 3 problem labels, |coef| <= 3, penalties with <= 9 ancillas for the truth-table clauses; bounds supplied are true "
       "enclosures computed by brute force; trusted: TLC, the record encoder (exact rationals over one denominator)",
       "TLA+ contract + transcription checked by TLC; real constraint calls recorded and judged by TLC against the contract", "DESIGN 3 C02")
@@ -133,7 +135,8 @@ check("C05", "model_checking",
       "Operand-pair tier: for every ordered pair of the ten classes of one domain and every pair of polynomials of the universe "
       "emitted from spec/GenPoly.tla (3 labels, coefficients -1/1, <= 2 terms), a+b, a-b, a*b are run on the real classes and judged by "
       "spec/CheckBin.tla (value, KeyError exactly where a quadratic left class cannot store the result, class, canonical storage, "
-      "operands unchanged, a+b == b+a).",
+      "operands unchanged, a+b == b+a), likewise a**2..5, -a, the in-place forms and operands scaled by 2^-43; spec/CheckValue.tla judges "
+      "the four evaluation functions on raw dictionaries with repeated labels for every assignment as dict / list / tuple.",
       "bounded: <= 3 labels, coefficients in {-1,0,1}, histories of <= 3 steps exhaustively and <= 10 by simulation; result class "
       "judged only when the operands do not have two different model classes; trusted: TLC, harness projection",
       "TLA+ laws + state machine checked by TLC; spec behaviours replayed into the classes; trace validation by TLC", "DESIGN 3 C05")
